@@ -51,6 +51,10 @@ Lemma bindF_set ev bd rho items v :
    end).
 Proof. reflexivity. Qed.
 
+Lemma bindF_exprs ev bd rho es v :
+  bindF ev bd rho (PExprs es) v = (do b <- as_data v; exprs_go ev rho b es).
+Proof. reflexivity. Qed.
+
 Lemma bind_pat_S n rho p v : bind_pat (S n) rho p v = bindF (eval n) (bind_pat n) rho p v.
 Proof. reflexivity. Qed.
 
@@ -606,10 +610,25 @@ Proof.
   split; [intros x; rewrite Hdom; simpl; tauto | intros _; exact Hd].
 Qed.
 
+Lemma exprs_go_sound n rho b : forall es sc, exprs_go (eval n) rho b es = Ok sc ->
+  sc = [] /\ exists pre e suf, es = pre ++ e :: suf /\
+    Forall (fun e' => exists a', evals rho e' (D a')) pre /\ evals rho e (D b).
+Proof.
+  induction es as [|e es IH]; intros sc H; [discriminate|]. cbn [exprs_go] in H.
+  destruct (eval n rho e) as [w| | |] eqn:Ee; cbn [rbind] in H; try discriminate.
+  destruct w as [a|? ? ?]; cbn [as_data rbind] in H; try discriminate.
+  destruct (veqb a b) eqn:Ev.
+  - injection H as <-. apply veqb_eq in Ev. subst a. split; [reflexivity|].
+    exists [], e, es. split; [reflexivity|]. split; [constructor | exists n; exact Ee].
+  - destruct (IH _ H) as (-> & pre & e0 & suf & -> & Hpre & He0). split; [reflexivity|].
+    exists (e :: pre), e0, suf. split; [reflexivity|]. split; [|exact He0].
+    constructor; [exists a, n; exact Ee | exact Hpre].
+Qed.
+
 Theorem bind_sound : forall n, Sound n.
 Proof.
   induction n as [|n IH]; intros rho p v sc Hnf H; [discriminate H|].
-  rewrite bind_pat_S in H. destruct p as [x| |e|items|attrs|entries|items].
+  rewrite bind_pat_S in H. destruct p as [x| |e|items|attrs|entries|items|es].
   - (* name *) injection H as <-. split; [|split; [|split]].
     + intros s Hs. constructor. apply Hs. simpl. rewrite name_eqb_refl. reflexivity.
     + repeat constructor. intros [].
@@ -656,6 +675,13 @@ Proof.
     apply step_good. eapply step_ok_weaken; [| |exact (set_go_sound n IH rho _ _ _ Hnf H)].
     + intros s Hr. constructor. exact Hr.
     + intros z. reflexivity.
+  - (* (e1, e2, ..) *) rewrite bindF_exprs in H. destruct v as [b|? ? ?]; cbn [as_data rbind] in H; try discriminate.
+    destruct (exprs_go_sound _ _ _ _ _ H) as (-> & pre & e0 & suf & -> & Hpre & He0).
+    split; [|split; [|split]].
+    + intros s _. constructor; assumption.
+    + constructor.
+    + intros z. reflexivity.
+    + intros _ z w [].
 Qed.
 
 (* ---------- completeness: whenever some assignment rebuilds the value, the match succeeds ---------- *)
@@ -670,11 +696,23 @@ Definition Complete (k : nat) : Prop :=
   forall p, (pat_depth p <= k)%nat -> forall rho s v, pat_nofb p = true -> rebuilds rho s p v ->
     exists n, forall m, (n <= m)%nat -> exists sc, bind_pat m rho p v = Ok sc /\ ext sc s.
 
-Lemma complete_leaf p : match p with PVar _ | PWild | PExpr _ => True | _ => False end ->
+Lemma exprs_go_complete rho b e suf : forall pre,
+  Forall (fun e' => exists a', evals rho e' (D a')) pre -> evals rho e (D b) ->
+  exists N, forall M, (N <= M)%nat -> exprs_go (eval M) rho b (pre ++ e :: suf) = Ok [].
+Proof.
+  intros pre Hpre (ne & He). induction Hpre as [|e' pre (a' & n' & He') Hpre IH].
+  - exists ne. intros M HM. cbn [app exprs_go]. rewrite (eval_ok_mono ne M _ _ _ HM He). cbn [rbind as_data].
+    assert (E : veqb b b = true) by (apply veqb_eq; reflexivity). rewrite E. reflexivity.
+  - destruct IH as (N & HN). exists (Nat.max n' N). intros M HM. cbn [app exprs_go].
+    rewrite (eval_ok_mono n' M _ _ _ ltac:(lia) He'). cbn [rbind as_data].
+    destruct (veqb a' b); [reflexivity | apply HN; lia].
+Qed.
+
+Lemma complete_leaf p : match p with PVar _ | PWild | PExpr _ | PExprs _ => True | _ => False end ->
   forall rho s v, rebuilds rho s p v ->
     exists n, forall m, (n <= m)%nat -> exists sc, bind_pat m rho p v = Ok sc /\ ext sc s.
 Proof.
-  intros Hp rho s v Hr. destruct p as [x| |e| | | |]; try contradiction; inversion Hr; subst.
+  intros Hp rho s v Hr. destruct p as [x| |e| | | | |es]; try contradiction; inversion Hr; subst.
   - exists 1%nat. intros m Hm. destruct m as [|m]; [lia|]. exists [(x, v)]. split; [reflexivity|].
     intros z w. simpl. destruct (name_eqb z x) eqn:E; [|discriminate].
     apply name_eqb_eq in E. subst. intros [= <-]. assumption.
@@ -683,6 +721,10 @@ Proof.
     exists (S n0). intros m Hm. destruct m as [|m]; [lia|]. exists []. split; [|apply ext_nil].
     rewrite bind_pat_S. cbn [bindF]. rewrite (eval_ok_mono n0 m _ _ _ ltac:(lia) He). simpl.
     assert (E : veqb a a = true) by (apply veqb_eq; reflexivity). rewrite E. reflexivity.
+  - match goal with Hf : Forall _ ?pre, He : evals _ ?e _ |- _ =>
+      destruct (exprs_go_complete rho a e suf pre Hf He) as (N & HN) end.
+    exists (S N). intros m Hm. destruct m as [|m]; [lia|]. exists []. split; [|apply ext_nil].
+    rewrite bind_pat_S, bindF_exprs. cbn [as_data rbind]. apply HN. lia.
 Qed.
 
 Lemma arr_go_rest_eq ev bd rho hb o suf m b acc :
@@ -992,7 +1034,7 @@ Theorem bind_complete : forall k, Complete k.
 Proof.
   induction k as [|k IH]; intros p Hd rho s v Hnf Hr.
   - destruct p; simpl in Hd; try lia; eapply complete_leaf; eauto; exact I.
-  - destruct p as [x| |e|items|attrs|entries|items]; try (eapply complete_leaf; eauto; exact I);
+  - destruct p as [x| |e|items|attrs|entries|items|es]; try (eapply complete_leaf; eauto; exact I);
       simpl in Hd; apply le_S_n in Hd; apply list_max_bound in Hd; simpl in Hnf; inversion Hr; subst.
     + eapply arr_complete; eauto.
     + eapply tup_complete; eauto.
